@@ -3,6 +3,7 @@ package main
 import (
 	"fmt"
 	"go/ast"
+	"go/parser"
 	"go/token"
 	"strconv"
 	"strings"
@@ -375,6 +376,39 @@ func (x *xtr) call(c *ast.CallExpr) xval {
 			return xval{s: x.applyFn(c, ident(id.Name), ft), ty: ft.results[0]}
 		}
 	}
+	if at, ok := c.Fun.(*ast.ArrayType); ok && at.Len == nil && len(c.Args) == 1 {
+		if lit, ok := c.Args[0].(*ast.BasicLit); ok && lit.Kind == token.STRING && x.goTy(at).elem.k == kByte {
+			str, err := strconv.Unquote(lit.Value)
+			if err != nil {
+				x.bad(c, "string literal")
+			}
+			var parts []string
+			for _, b := range []byte(str) {
+				parts = append(parts, fmt.Sprintf("0x%x#8", b))
+			}
+			return xval{s: "[" + strings.Join(parts, ", ") + "]", ty: listOf(tBytex)}
+		}
+	}
+	if se, ok := c.Fun.(*ast.SelectorExpr); ok && se.Sel.Name == "Get" && len(c.Args) == 1 {
+		if id, ok := se.X.(*ast.Ident); ok {
+			if ty, ok := x.env[id.Name]; ok && ty.k == kBucket {
+				// nil (absent) and empty values are identified, like nil and empty slices everywhere
+				kk := x.co(c.Args[0], x.expr(c.Args[0]), listOf(tBytex))
+				return xval{s: fmt.Sprintf("(KV.get %s %s).getD []", ident(id.Name), paren(kk)), ty: listOf(tBytex)}
+			}
+		}
+	}
+	if u, ok := x.uses[name]; ok {
+		te, err := parser.ParseExpr(u.Sig)
+		if err != nil {
+			x.bad(c, "spec.Uses %s: %v", name, err)
+		}
+		ft := x.goTy(te)
+		if ft.k != kFunc || len(ft.results) != 1 {
+			x.bad(c, "spec.Uses %s: not a function type with one result", name)
+		}
+		return xval{s: x.applyFn(c, u.Lean, ft), ty: ft.results[0]}
+	}
 	if ft, ok := x.known[name]; ok {
 		if len(ft.results) != 1 {
 			x.bad(c, "call of %s with %d results inside an expression", name, len(ft.results))
@@ -409,11 +443,17 @@ func (x *xtr) call(c *ast.CallExpr) xval {
 		if a.ty.k == kInt || a.ty.k == kConst {
 			return xval{s: x.co(c, a, tInt), ty: tInt} // int ↔ int64: no overflow assumed
 		}
+		if a.ty.k == kU64 {
+			return xval{s: "BitVec.toInt " + paren(a.s), ty: tInt} // Go reinterprets the 64 bits: exact
+		}
 	case "uint64":
 		need(1)
 		a := x.expr(c.Args[0])
 		if a.ty.k == kU64 || a.ty.k == kConst {
 			return xval{s: x.co(c, a, tU64x), ty: tU64x}
+		}
+		if a.ty.k == kInt {
+			return xval{s: "BitVec.ofInt 64 " + paren(a.s), ty: tU64x} // exact (wraps like Go)
 		}
 	case "string":
 		need(1)
